@@ -1,10 +1,112 @@
-/- Driver for `kind = "c13"` (and `"c13:…"`) cases. -/
-import Driver.Common
+/- Driver for `kind = "c13:…"` cases: runs the model `Askar.Sign` over the toy instance `Toy.schemes`.
 
-open Lean
+   case = {"keys": [keyspec…], "ops": [op…]}
+   keyspec = {"alg", "src": "secret"|"seed"|"generate"|"jwk"|"public", "secret": bool?, "fam": n?}      (base key, family = own index unless "fam")
+           | {"src": "public_of"|"jwk_public_of"|"jwk_secret_of"|"secret_of", "of": i}                  (re-import of key i)
+   op = {"op": "sign", "key": i, "msg": hex, "t": null|string}
+      | {"op": "verify", "key": j, "msg": hex, "t": null|string, "sig": {"raw": hex} | {"by": i, "msg": hex, "t": null|string, "mut": M}}
+   M = null | {"flip": bit} | {"trunc": n} | {"extend": hex} | "neg_s" | "s_plus_n"
+   output = one entry per op: sign ↦ {"ok": length} | {"err": kind};  verify ↦ true | false | {"err": kind} | {"sigerr": kind}.
+   The toy key of family f has secret bytes "fam-f"; what is compared is the dispatch outcome, not signature bytes. -/
+import Driver.Common
+import AskarModel.Model.Sign
+
+open Lean Askar Askar.Sign
 
 namespace Driver.C13
 
-def runCase (_j : Json) : Json := jerr "not implemented"
+def algOfName (s : String) : Option KeyAlg := KeyAlg.all.find? fun a => a.name == s
+
+structure MKey where
+  key : Key
+  fam : Nat
+
+def famSecret (f : Nat) : Bytes := utf8 ("fam-" ++ toString f)
+
+def baseKey (alg : KeyAlg) (fam : Nat) (hasSecret : Bool) : Key :=
+  match alg.sigAlg? with
+  | some a =>
+    let k := Key.ofSecret Toy.schemes a alg (famSecret fam)
+    if hasSecret then k else (Key.ofPublic Toy.schemes a alg k.pub).getD k.toPublic
+  | none => { alg := alg, secret := if hasSecret then some (famSecret fam) else none, pub := [] }
+
+def buildKeys (specs : List Json) : List (Option MKey) :=
+  let step := fun (acc : List (Option MKey)) (spec : Json) =>
+    let idx := acc.length
+    let src := str! spec "src"
+    let k : Option MKey :=
+      if src == "public_of" || src == "jwk_public_of" || src == "jwk_secret_of" || src == "secret_of" then
+        match (acc[nat! spec "of"]?).join with
+        | some b =>
+          if src == "public_of" || src == "jwk_public_of" then
+            match b.key.alg.sigAlg? with
+            | some a => (Key.ofPublic Toy.schemes a b.key.alg b.key.pub).map fun k => { key := k, fam := b.fam }
+            | none => none
+          else if b.key.secret.isSome then some b else none
+        | none => none
+      else
+        match algOfName (str! spec "alg") with
+        | some alg =>
+          let fam := (natOpt spec "fam").getD idx
+          let hasSecret := if src == "public" then false else if src == "jwk" then bool! spec "secret" else true
+          some { key := baseKey alg fam hasSecret, fam := fam }
+        | none => none
+    acc ++ [k]
+  specs.foldl step []
+
+def tOf (j : Json) : Option (List Char) := (strOpt j "t").map String.toList
+
+def jres {α} (f : α → Json) : Res ErrKind α → Json
+  | .ok a => f a
+  | .err e => jerr e.name
+  | .panic _ => jerr "Panic"
+
+def flipBit (s : Bytes) (bit : Nat) : Bytes :=
+  s.mapIdx fun i b => if i = bit / 8 then b ^^^ (UInt8.ofNat (1 <<< (bit % 8))) else b
+
+def sPlusN (s : Bytes) : Bytes :=
+  s.take (s.length / 2) ++ (s.drop (s.length / 2)).map fun b => b + 1
+
+def mutate (m : Json) (s : Bytes) : Bytes :=
+  match m with
+  | .str "neg_s" => Toy.negS s
+  | .str "s_plus_n" => sPlusN s
+  | .null => s
+  | _ =>
+    match natOpt m "flip", natOpt m "trunc", strOpt m "extend" with
+    | some b, _, _ => flipBit s b
+    | _, some n, _ => s.take n
+    | _, _, some h => s ++ (Bytes.ofHex h).getD []
+    | _, _, _ => s
+
+def runOp (keys : List (Option MKey)) (op : Json) : Json :=
+  match (keys[nat! op "key"]?).join with
+  | none => jerr "nokey"
+  | some k =>
+    let msg := hex! op "msg"
+    if str! op "op" == "sign" then
+      jres (fun s => Json.mkObj [("ok", jnat s.length)]) (signMessage Toy.schemes k.key msg (tOf op))
+    else
+      let sj := (getD? op "sig").getD .null
+      let sig : Except Json Bytes :=
+        match strOpt sj "raw" with
+        | some h => .ok ((Bytes.ofHex h).getD [])
+        | none =>
+          match (keys[nat! sj "by"]?).join with
+          | none => .error (jerr "nokey")
+          | some sk =>
+            match signMessage Toy.schemes sk.key (hex! sj "msg") (tOf sj) with
+            | .ok s => .ok (mutate ((sj.getObjVal? "mut").toOption.getD .null) s)
+            | .err e => .error (Json.mkObj [("sigerr", .str e.name)])
+            | .panic _ => .error (Json.mkObj [("sigerr", .str "Panic")])
+      match sig with
+      | .error j => j
+      | .ok s => jres (fun b => Json.bool b) (verifySignature Toy.schemes k.key msg s (tOf op))
+
+def runCase (j : Json) : Json :=
+  let keys := buildKeys (arr! j "keys")
+  match keys.findIdx? Option.isNone with
+  | some i => Json.mkObj [("keyerr", jnat i)]
+  | none => Json.arr ((arr! j "ops").map (runOp keys)).toArray
 
 end Driver.C13
